@@ -348,10 +348,21 @@ Proof.
     + split; [|discriminate]. intros _. apply Hiff. reflexivity.
 Qed.
 
+Lemma close_while_eq rb : close_while rb =
+  match rel_fixpoint fix_fuel (rel_comp rel_empty (cr_rel rb)) with
+  | None => RErr "fuel:fixpoint"
+  | Some fx =>
+      let '(rw, rec) := while_correction fx in
+      rbind (dg_insert_all (cr_dg rb) rec) (fun d1 =>
+      rbind (dg_fusion d1) (fun d2 =>
+        ROk {| cr_index := cr_index rb; cr_rel := rw; cr_exit := dg_is_empty d2; cr_dg := d2 |}))
+  end.
+Proof. reflexivity. Qed.
+
 Theorem close_while_sim : close_while_sim_stmt.
 Proof.
   intros V d rb dv r Hn Hsim Hex Hfin E.
-  unfold close_while in E. cbv zeta in E. revert E. generalize fix_fuel. intros fuel E.
+  rewrite close_while_eq in E. revert E. generalize fix_fuel. intros fuel E.
   destruct (rel_fixpoint fuel (rel_comp rel_empty (cr_rel rb))) as [fx|] eqn:Efx; [|discriminate].
   destruct (while_correction fx) as [rw rec] eqn:Ew.
   destruct (dg_insert_all (cr_dg rb) rec) as [d1|] eqn:E1; cbn [rbind] in E; [|discriminate].
@@ -458,10 +469,24 @@ Proof.
     + split; [|discriminate]. intros _. apply Hiff. reflexivity.
 Qed.
 
+Lemma close_for_eq x rb : close_for x rb =
+  match rel_fixpoint fix_fuel (rel_comp (rel_zero [x]) (cr_rel rb)) with
+  | None => RErr "fuel:fixpoint"
+  | Some fx =>
+      match loop_correction fx x with
+      | None => RErr "ValueError:loop_correction"
+      | Some (rl, rec) =>
+          rbind (dg_insert_all (cr_dg rb) rec) (fun d1 =>
+          rbind (dg_fusion d1) (fun d2 =>
+            ROk {| cr_index := cr_index rb; cr_rel := rl; cr_exit := dg_is_empty d2; cr_dg := d2 |}))
+      end
+  end.
+Proof. reflexivity. Qed.
+
 Theorem close_for_sim : close_for_sim_stmt.
 Proof.
   intros V d rb dv x r Hn Hsim Hex Hfin HxV Hxnb E.
-  unfold close_for in E. cbv zeta in E. revert E. generalize fix_fuel. intros fuel E.
+  rewrite close_for_eq in E. revert E. generalize fix_fuel. intros fuel E.
   destruct (rel_fixpoint fuel (rel_comp (rel_zero [x]) (cr_rel rb))) as [fx|] eqn:Efx; [|discriminate].
   destruct (loop_correction fx x) as [[rl rec]|] eqn:El; [|discriminate].
   destruct (dg_insert_all (cr_dg rb) rec) as [d1|] eqn:E1; cbn [rbind] in E; [|discriminate].
